@@ -156,16 +156,17 @@ func (lp *Loop) RangedValue() ssa.Value {
 }
 
 func phiInitStep(phi *ssa.Phi, init int64, step ssa.Value) bool {
-	if len(phi.Edges) != 2 {
+	if len(phi.Edges) < 2 {
 		return false
 	}
 	var okInit, okStep bool
 	for _, e := range phi.Edges {
 		if n, ok := intConst(e); ok && n == init {
 			okInit = true
-		}
-		if e == step {
+		} else if e == step {
 			okStep = true
+		} else {
+			return false
 		}
 	}
 	return okInit && okStep
